@@ -104,9 +104,17 @@ Definition set_comp (c : option (list (N * N))) (m : modl) : modl :=
    _lys_set_implemented (features of an implemented module changed) / lys_implement (module became implemented) *)
 Inductive event := EvAdd | EvCompile (k : key) | EvChange.
 
+(* the context options the operations of the model read or ly_ctx_set_options treats specially (the other bits of
+   ctx->flags behave like x_impf / x_refi: they are only stored). LY_CTX_EXPLICIT_COMPILE is the field `explicit`. *)
+Record xflags := mkX {
+  x_impf : bool;               (* LY_CTX_ENABLE_IMP_FEATURES: no effect on the modelled operations (nothing is implemented as a side effect) *)
+  x_refi : bool;               (* LY_CTX_REF_IMPLEMENTED: no effect on the modelled operations (no when / must) *)
+  x_priv : bool }.             (* LY_CTX_SET_PRIV_PARSED: setting it recompiles the context *)
+
 Record state := mkState {
   mods : list modl;            (* ctx->list, in order *)
   explicit : bool;             (* LY_CTX_EXPLICIT_COMPILE *)
+  xopts : xflags;              (* further bits of ctx->flags *)
   creating : list key;         (* ctx->unres.creating *)
   implementing : list key;     (* ctx->unres.implementing *)
   featsaved : list (key * list bool); (* ctx->unres.feat_mods / feat_bits (since /repo commit af27b8d), oldest first *)
@@ -115,23 +123,23 @@ Record state := mkState {
   aborted : bool }.            (* an assert() of the C code does not hold (builds with assertions abort there) *)
 
 Definition with_mods (l : list modl) (s : state) : state :=
-  mkState l (explicit s) (creating s) (implementing s) (featsaved s) (evs s) (fuel_out s) (aborted s).
+  mkState l (explicit s) (xopts s) (creating s) (implementing s) (featsaved s) (evs s) (fuel_out s) (aborted s).
 Definition with_creating (c : list key) (s : state) : state :=
-  mkState (mods s) (explicit s) c (implementing s) (featsaved s) (evs s) (fuel_out s) (aborted s).
+  mkState (mods s) (explicit s) (xopts s) c (implementing s) (featsaved s) (evs s) (fuel_out s) (aborted s).
 Definition with_implementing (c : list key) (s : state) : state :=
-  mkState (mods s) (explicit s) (creating s) c (featsaved s) (evs s) (fuel_out s) (aborted s).
+  mkState (mods s) (explicit s) (xopts s) (creating s) c (featsaved s) (evs s) (fuel_out s) (aborted s).
 Definition with_featsaved (c : list (key * list bool)) (s : state) : state :=
-  mkState (mods s) (explicit s) (creating s) (implementing s) c (evs s) (fuel_out s) (aborted s).
+  mkState (mods s) (explicit s) (xopts s) (creating s) (implementing s) c (evs s) (fuel_out s) (aborted s).
 Definition add_ev (e : event) (s : state) : state :=
-  mkState (mods s) (explicit s) (creating s) (implementing s) (featsaved s) (evs s ++ [e]) (fuel_out s) (aborted s).
+  mkState (mods s) (explicit s) (xopts s) (creating s) (implementing s) (featsaved s) (evs s ++ [e]) (fuel_out s) (aborted s).
 Definition out_of_fuel (s : state) : state :=
-  mkState (mods s) (explicit s) (creating s) (implementing s) (featsaved s) (evs s) true (aborted s).
+  mkState (mods s) (explicit s) (xopts s) (creating s) (implementing s) (featsaved s) (evs s) true (aborted s).
 Definition assert_fails (s : state) : state :=
-  mkState (mods s) (explicit s) (creating s) (implementing s) (featsaved s) (evs s) (fuel_out s) true.
+  mkState (mods s) (explicit s) (xopts s) (creating s) (implementing s) (featsaved s) (evs s) (fuel_out s) true.
 
 (* the state without the bookkeeping of the model itself *)
 Definition core (s : state) : state :=
-  mkState (mods s) (explicit s) (creating s) (implementing s) (featsaved s) [] false false.
+  mkState (mods s) (explicit s) (xopts s) (creating s) (implementing s) (featsaved s) [] false false.
 
 (* abstract module text: what lys_parse gets or the import callback serves *)
 Record mdesc := mkDesc {
@@ -660,11 +668,16 @@ Definition erase (s : state) : state := with_featsaved [] (with_implementing [] 
 (* ------------------------------------------------------------------------------------------------ *)
 (* operations                                                                                       *)
 (* ------------------------------------------------------------------------------------------------ *)
+(* an options argument: LY_CTX_EXPLICIT_COMPILE, ENABLE_IMP_FEATURES, REF_IMPLEMENTED, SET_PRIV_PARSED *)
+Record oflags := mkOf { of_expl : bool; of_impf : bool; of_refi : bool; of_priv : bool }.
+
 Inductive op :=
 | OpParse (d : mdesc) (sel : fsel)          (* lys_parse(ctx, text of d, features) *)
 | OpLoad (name rev : N) (sel : fsel)        (* ly_ctx_load_module(ctx, name, revision, features) *)
 | OpImpl (name rev : N) (sel : fsel)        (* lys_set_implemented(ly_ctx_get_module(ctx, name, revision), features) *)
-| OpCompile.                                (* ly_ctx_compile(ctx) *)
+| OpCompile                                 (* ly_ctx_compile(ctx) *)
+| OpSetOpt (fl : oflags)                    (* ly_ctx_set_options(ctx, fl) *)
+| OpUnsetOpt (fl : oflags).                 (* ly_ctx_unset_options(ctx, fl) *)
 
 Inductive result := ROk | RErr | RNoMod | RFuel | RAbort.
 
@@ -706,6 +719,7 @@ Definition attempt (R : repo) (s : state) (o : op) : state * list (list key) * r
       let '(s1, dss) := dep_sets_create s None in
       let '(s2, ok) := compile_all dss s1 in
       (s2, dss, if ok then ROk else RErr)
+  | OpSetOpt _ | OpUnsetOpt _ => (s, [], RNoMod)        (* not used: see set_options / unset_options and step *)
   end.
 
 (* the cleanup of lys_parse / ly_ctx_load_module / lys_set_implemented / ly_ctx_compile *)
@@ -722,7 +736,46 @@ Definition finish (o : op) (a : state * list (list key) * result) : state * resu
   | _ => (erase (revert s dss), r')
   end.
 
-Definition step (R : repo) (s : state) (o : op) : state * result := finish o (attempt R (core s) o).
+(* ly_ctx_compile as a whole (with its cleanup), as ly_ctx_set_options calls it *)
+Definition do_compile (s : state) : state * bool :=
+  let '(s1, dss) := dep_sets_create s None in
+  let '(s2, ok) := compile_all dss s1 in
+  if ok then (erase s2, true) else (erase (revert s2 dss), false).
+
+Definition with_flags (e : bool) (x : xflags) (s : state) : state :=
+  mkState (mods s) e x (creating s) (implementing s) (featsaved s) (evs s) (fuel_out s) (aborted s).
+
+(* ly_ctx_set_options (context.c): a newly set LY_CTX_SET_PRIV_PARSED sets that flag, marks every implemented module and
+   recompiles the context; when that fails only this flag is cleared again (ly_ctx_unset_options) and the error is
+   returned; the requested options are ORed into ctx->flags only after that, when nothing failed. or_first = the variant
+   that ORs all the options before the recompilation (seeded change C09-7), for the regression example. *)
+Definition set_options_gen (or_first : bool) (s : state) (fl : oflags) : state * bool :=
+  let ored (t : state) := with_flags (explicit t || of_expl fl)
+                            (mkX (x_impf (xopts t) || of_impf fl) (x_refi (xopts t) || of_refi fl) (x_priv (xopts t) || of_priv fl)) t in
+  if negb (x_priv (xopts s)) && of_priv fl then
+    let s0 := if or_first then ored s else s in
+    let sp := with_flags (explicit s0) (mkX (x_impf (xopts s0)) (x_refi (xopts s0)) true) s0 in
+    let sm := mark_all [map mkey (mods sp)] sp in
+    let '(s2, ok) := do_compile sm in
+    if ok then (ored s2, true)
+    else (with_flags (explicit s2) (mkX (x_impf (xopts s2)) (x_refi (xopts s2)) false) s2, false)
+  else (ored s, true).
+
+Definition set_options : state -> oflags -> state * bool := set_options_gen false.
+
+(* ly_ctx_unset_options: the bits are cleared (the priv pointers as well, which the model does not have) *)
+Definition unset_options (s : state) (fl : oflags) : state :=
+  with_flags (explicit s && negb (of_expl fl))
+    (mkX (x_impf (xopts s) && negb (of_impf fl)) (x_refi (xopts s) && negb (of_refi fl)) (x_priv (xopts s) && negb (of_priv fl))) s.
+
+Definition step (R : repo) (s : state) (o : op) : state * result :=
+  match o with
+  | OpSetOpt fl =>
+      let '(s', ok) := set_options (core s) fl in
+      (s', if fuel_out s' then RFuel else if aborted s' then RAbort else if ok then ROk else RErr)
+  | OpUnsetOpt fl => (unset_options (core s) fl, ROk)
+  | _ => finish o (attempt R (core s) o)
+  end.
 
 (* the state where a failing operation jumps to its cleanup *)
 Definition step_mid (R : repo) (s : state) (o : op) : state := fst (fst (attempt R (core s) o)).
@@ -748,7 +801,7 @@ Definition internal_mods : list modl :=
     internal 104 true false false [(102, 1); (103, 1)];
     internal 105 false true false [] ].
 
-Definition init (expl : bool) : state := mkState internal_mods expl [] [] [] [] false false.
+Definition init (expl : bool) : state := mkState internal_mods expl (mkX false false false) [] [] [] [] false false.
 
 Definition run (R : repo) (s : state) (ops : list op) : state := fold_left (fun s o => fst (step R s o)) ops s.
 
@@ -773,11 +826,12 @@ Definition hash_fields (s : state) : list (N * N * list N * bool) :=
   map (fun m => (m_name m, m_rev m, enabled_names (m_feats m), m_impl m)) (user_mods s).
 
 Definition obs (s : state)
-  : list omod * list (option N) * list (option N) * list (N * N * list N * bool) :=
+  : list omod * list (option N) * list (option N) * list (N * N * list N * bool) * (bool * xflags) :=
   (map omod_of (user_mods s),
    map (fun n => option_map m_rev (get_latest n (mods s))) names,
    map (fun n => option_map m_rev (get_implemented n (mods s))) names,
-   hash_fields s).
+   hash_fields s,
+   (explicit s, xopts s)).                  (* ly_ctx_get_options *)
 
 (* compiled trees that are new objects after the operation *)
 Definition compiled_in (s : state) : list key :=
